@@ -300,6 +300,29 @@ def history(kind, base, other, call):
                 if o in base.gates and any(r[o] is not n[o] for r, n in zip(ref, now)):
                     bad.append('an output that was there before now computes another function: ' + o)
                     break
+    elif kind == 'reslice-named-block':
+        do_call(base, other, call)
+        blk = base.get_block(call['name'])
+        if len(set(blk.inputs)) != len(blk.inputs):
+            return bad  # two inputs of the attached circuit were identified with one base gate: extraction is not defined for that
+        first = blk.into_circuit()
+        try:
+            base.make_block_from_slice('resliced', list(blk.inputs), list(blk.outputs))
+        except CircuitError:
+            return bad  # the slice is refused: nothing to compare
+        again = base.get_block('resliced')
+        if set(again.gates) & set(again.inputs):
+            bad.append('a gate is both an input and a member of the re-sliced block: ' + str(sorted(set(again.gates) & set(again.inputs))))
+        try:
+            second = again.into_circuit()
+            bad += ['re-sliced block: ' + x for x in circ.wf_problems(second)]
+            copy.copy(second)
+            if not bad and list(second.inputs) == list(first.inputs) and len(second.outputs) == len(first.outputs):
+                ra, rb = output_functions(first, list(first.inputs)), output_functions(second, list(second.inputs))
+                if any([r[o] for o in first.outputs] != [q[o] for o in second.outputs] for r, q in zip(ra, rb)):
+                    bad.append('the block re-sliced by its own interface computes another function')
+        except Exception as e:
+            bad.append('re-sliced block cannot be extracted/copied: ' + type(e).__name__)
     elif kind == 'block-of-live-lists':
         try:
             base.make_block_from_slice('backup', base.inputs, base.outputs)
@@ -408,6 +431,7 @@ def unit(p, item, tier, seed):
                 if call["name"]:
                     check_history(p, f"seeded[{s}:{i}]", "copy-then-rename", base, other, call)
                     check_history(p, f"seeded[{s}:{i}]", "block-dropped-then-same-name", base, other, call)
+                    check_history(p, f"seeded[{s}:{i}]", "reslice-named-block", base, other, call)
                 check_history(p, f"seeded[{s}:{i}]", "block-of-live-lists", base, other, call)
             if res is not None and rnd.random() < 0.5:
                 # repeated composition (depth 2) on the result
